@@ -272,15 +272,22 @@ func (f *File) Seek(offset int64, whence int) (int64, error) {
 	if f.closed {
 		return 0, ErrFileClosed
 	}
+	pos := atomic.LoadInt64(&f.at)
 	switch whence {
 	case io.SeekStart:
-		atomic.StoreInt64(&f.at, offset)
+		pos = offset
 	case io.SeekCurrent:
-		atomic.AddInt64(&f.at, offset)
+		pos += offset
 	case io.SeekEnd:
-		atomic.StoreInt64(&f.at, int64(len(f.fileData.data))+offset)
+		f.fileData.Lock()
+		pos = int64(len(f.fileData.data)) + offset
+		f.fileData.Unlock()
 	}
-	return f.at, nil
+	if pos < 0 {
+		return 0, &os.PathError{Op: "seek", Path: f.fileData.name, Err: errors.New("negative position")}
+	}
+	atomic.StoreInt64(&f.at, pos)
+	return pos, nil
 }
 
 func (f *File) Write(b []byte) (n int, err error) {
